@@ -266,6 +266,66 @@ def job_resync(num_pols, op, start_flag):
     return recs
 
 
+def job_update_noise_mid(num_pols, which):
+    """a noise re-estimate on a background (or antenna) stream in the middle of an observation draws and rewinds on that
+    stream only: the next request continues the observation, aligned as before"""
+    recs = []
+    tag = f"C15:update-noise-mid:{(num_pols, which)}"
+    delays = [0, 2]
+    t0, sr, fch1, f0, lvl = (Sym(z3.Real(n)) for n in ('t0', 'sr', 'fch1', 'f_start', 'level'))
+    pre = [sr.t > 0]
+    dt = 1 / sr.t
+    n1, n = 3, 4
+    with volt_patches(proxy=proxy()):
+        arr = A.MultiAntennaArray(num_antennas=2, sample_rate=sr, fch1=fch1, ascending=True, num_pols=num_pols, delays=delays, t_start=t0, seed=5)
+        for ant in arr.antennas:
+            for st in ant.streams:
+                st.add_constant_signal(f0, 0, lvl)
+        for bg in arr.bg_streams:
+            bg.add_constant_signal(f0 * 2, 0, lvl)
+        arr.get_samples(n1)
+        for st in (arr.bg_streams if which == 'background' else arr.antennas[1].streams):
+            st.update_noise(stats_calc_num_samples=2)
+        out = arr.get_samples(n)
+        clock = arr.t_start
+    mx = max(delays)
+    two_pi = RV(TWO_PI)
+    pairs = [((lift(clock), RV(0)), (t0.t + RV(n1 + n) * dt, RV(0)))]
+    for i in range(2):
+        for pol in range(num_pols):
+            for j in range(n):
+                own = lvl.t * UF('COS')(two_pi * ((f0.t - fch1.t) * (t0.t + RV(n1 + j) * dt)) + RV(0))
+                bgv = lvl.t * UF('COS')(two_pi * ((2 * f0.t - fch1.t) * (t0.t + RV(n1 + j + mx - delays[i]) * dt)) + RV(0))
+                pairs.append((cparts(out[i, pol, j]), (own + bgv, RV(0))))
+    pl = dict(fn='update_noise_mid', num_pols=num_pols, which=which)
+    dis = diff_terms(pairs)
+    r, m = core.check(pre + [z3.Or(*dis)] if dis else [z3.BoolVal(False)], timeout_ms=120000)
+    recs.append(q(tag, r, terms=len(dis)))
+    if r == 'sat':
+        recs.append(cex('C15:update-noise-mid', f"after update_noise on the {which} streams in mid-observation the next request is not the continuation of the observation", pl, name=tag))
+    return recs
+
+
+def replay_update_noise_mid(p):
+    from setigen.voltage import antenna as an
+    delays = [0, 2, 5]
+    sr, t0 = 1000.0, 1.25
+    arr = an.MultiAntennaArray(num_antennas=3, sample_rate=sr, fch1=0.0, ascending=True, num_pols=p['num_pols'], delays=delays, t_start=t0, seed=1)
+    for ant in arr.antennas:
+        for st in ant.streams:
+            st.add_signal(lambda ts: np.asarray(ts) * 3.0)
+    for bg in arr.bg_streams:
+        bg.add_signal(lambda ts: np.asarray(ts) * 1000.0)
+    arr.get_samples(7)
+    for st in (arr.bg_streams if p['which'] == 'background' else arr.antennas[1].streams):
+        st.update_noise(stats_calc_num_samples=4)
+    out = arr.get_samples(6)
+    mx = max(delays)
+    exp = np.array([[[3.0 * (t0 + (7 + j) / sr) + 1000.0 * (t0 + (7 + j + mx - delays[i]) / sr) for j in range(6)] for _ in range(p['num_pols'])] for i in range(3)])
+    bad = out.shape != exp.shape or not np.allclose(out, exp, rtol=1e-9, atol=1e-9)
+    return bad, f"update_noise on the {p['which']} streams after 7 samples: the next request gives {out[:, 0, 0].tolist()}, the continuation is {exp[:, 0, 0].tolist()}"
+
+
 def replay_resync(p):
     from setigen.voltage import antenna as an
     delays = [0, 2]
@@ -299,7 +359,7 @@ def replay_resync(p):
     return bad, f"{p['op']} (start flag {p['start_flag']}) from diverged clocks: next request gives {out[:, 0, :2].tolist()}, aligned from t={want} it would be {exp[:, 0, :2].tolist()}"
 
 
-REPLAYS = {'array': replay_array, 'resync': replay_resync}
+REPLAYS = {'array': replay_array, 'resync': replay_resync, 'update_noise_mid': replay_update_noise_mid}
 
 
 def main():
@@ -314,6 +374,8 @@ def main():
         for op_ in ('set_time', 'add_time', 'reset_start'):
             for flag_ in (True, False):
                 jobs.append(('job_resync', (npol_, op_, flag_)))
+        for which_ in ('background', 'antenna'):
+            jobs.append(('job_update_noise_mid', (npol_, which_)))
     if ck.thorough:
         space = [(1, 1, 2), (2, 1, 2), (2, 2, 2), (3, 1, 2), (3, 2, 1), (2, 1, 3)]
         N = 8
